@@ -276,21 +276,21 @@ func timeMenu(unit string, thorough bool) []string {
 
 func stepMenu(thorough bool) []string {
 	if thorough {
-		return []string{absent, "0", "-1", "1", "5", "1m", "0.001", "4611686018427387904", "1e30", "abc"}
+		return []string{absent, "0", "-1", "1", "5", "1m", "0.5", "4611686018427387904", "1e30", "abc"}
 	}
 	return []string{absent, "0", "-1", "5", "1e30", "abc"}
 }
 
 func limitMenu(thorough bool) []string {
 	if thorough {
-		return []string{absent, "0", "-1", "1", "2", "101", "4611686018427387904", "1e30", "abc"}
+		return []string{absent, "0", "-1", "2", "101", "4611686018427387904", "abc"}
 	}
 	return []string{absent, "0", "-1", "2", "abc"}
 }
 
 func directionMenu(thorough bool) []string {
 	if thorough {
-		return []string{absent, "forward", "backward", "abc"}
+		return []string{absent, "forward", "abc"}
 	}
 	return []string{absent, "forward"}
 }
